@@ -3,6 +3,7 @@ package main
 // Symbolic execution of one function activation (top-level or inlined).
 
 import (
+	"sort"
 	"fmt"
 	"strings"
 	"go/token"
@@ -172,6 +173,29 @@ type invEnvKind int
 // phiVal gives the term to use for each header phi.
 func (f *frame) invEnv(li *loopInfo, st *State, phiTerm func(p *ssa.Phi) string) *exprEnv {
 	env := f.baseEnv(st)
+	// variables carried by enclosing loops keep the value they have in the current iteration of those loops
+	var outer []*loopInfo
+	for _, o := range f.loops {
+		if o != li && o.body[li.header] {
+			outer = append(outer, o)
+		}
+	}
+	sort.Slice(outer, func(i, j int) bool { return len(outer[i].body) > len(outer[j].body) })
+	for _, o := range outer {
+		// $n_loop<k>: completed iterations of the enclosing range loop with ordinal k
+		if phi, _, _ := f.rangeIndexInfo(o); phi != nil {
+			if v, ok := f.vals[phi]; ok && v.term != "" {
+				env.vars[fmt.Sprintf("ζn_loop%d", o.ordinal)] = cval{term: fmt.Sprintf("(+ %s 1)", v.term), typ: types.Typ[types.Int]}
+			}
+		}
+		for _, in := range o.header.Instrs {
+			if p, ok := in.(*ssa.Phi); ok && p.Comment != "" {
+				if v, ok := f.vals[p]; ok && v.term != "" {
+					env.vars[p.Comment] = cval{term: v.term, typ: p.Type()}
+				}
+			}
+		}
+	}
 	for _, in := range li.header.Instrs {
 		p, ok := in.(*ssa.Phi)
 		if !ok {
@@ -203,6 +227,20 @@ func (f *frame) invEnv(li *loopInfo, st *State, phiTerm func(p *ssa.Phi) string)
 			env.vars["ζvisited"] = cval{term: v, typ: nil, sort: "(Array " + f.t.B.sortOf(mt.Key()) + " Bool)"}
 		}
 		env.vars["ζmap"] = cval{term: f.termOf(r.X), typ: r.X.Type()}
+	}
+	// $n_outer: completed iterations of the innermost enclosing range loop (fixed while this loop runs)
+	var encl *loopInfo
+	for _, o := range f.loops {
+		if o != li && o.body[li.header] && (encl == nil || len(o.body) < len(encl.body)) {
+			encl = o
+		}
+	}
+	if encl != nil {
+		if phi, _, _ := f.rangeIndexInfo(encl); phi != nil {
+			if v, ok := f.vals[phi]; ok && v.term != "" {
+				env.vars["ζn_outer"] = cval{term: fmt.Sprintf("(+ %s 1)", v.term), typ: types.Typ[types.Int]}
+			}
+		}
 	}
 	env.loop = li
 	for k, v := range f.lets {
